@@ -15,6 +15,15 @@ def run(tier, seed, replay=None):
     run = Run("C04", tier, seed, RULE)
     drv = Driver()
     exp = {}
+
+    def still_fails(c):
+        probe = Run("C04", tier, seed, RULE)
+        res = run_case(probe, Driver(), dict(c), {})
+        if res is None or not c.get("damage"):
+            return False
+        result, stream, ref = res
+        return (not all(ok for ok, _ in ref)) and not result < 100
+    run.shrinker = still_fails
     from harness.common import corpus_cases
     cases = [replay["case"]] if replay else corpus_cases("C04") + \
         [rc.make_case(run.rng, tier, damage=True, max_damage=3)
